@@ -818,3 +818,7 @@ PROPS["C10"]["also_drivers"] = ["C14", "C09"]
 # compares msg_name / msg_namelen of every send_to / recv_from with the ABI (seed C16-g).
 PROPS["C15"]["also_drivers"] = ["C10"]
 PROPS["C16"]["also_drivers"] = ["C13"]
+# C12: descriptors of every kind and every way of closing them at teardown (explicit close()
+# futures, accepted descriptors of direct listeners) are C07's driver, which now also checks that
+# the ring's shared state is released once every handle is gone (seeds C12-i, C12-j).
+PROPS["C12"]["also_drivers"] = PROPS["C12"]["also_drivers"] + ["C07"]
